@@ -25,6 +25,7 @@ var BaseForms = []BaseForm{
 	{ID: "flag", Flag: "/f1"},
 	{ID: "flag-two", Flag: "/f1/f2"},
 	{ID: "flag-over-servers", Servers: "/ignored", Flag: "/f3"},
+	{ID: "flag-root-over-servers", Servers: "https://example.com/ignored/v9", Flag: "/"},
 	{ID: "servers-trailing-slash", Servers: "/v1/"},
 	{ID: "servers-root-slash", Servers: "/"},
 	{ID: "flag-trailing-slash", Flag: "/f1/"},
@@ -172,7 +173,7 @@ func RouterCases(seed int64, n int) []Case {
 		for _, s := range set {
 			ts = append(ts, tmpl{strings.Split(s, "/")})
 		}
-		bf := BaseForms[i%7]
+		bf := BaseForms[i%8]
 		mk(fmt.Sprintf("router-fixed-%02d/base=%s", i, bf.ID), ts, bf, i%2 == 1, false, "", i%3 == 0, false)
 	}
 	// base-path forms on one fixed set
@@ -192,10 +193,50 @@ func RouterCases(seed int64, n int) []Case {
 			seen[t.shape()] = true
 			ts = append(ts, t)
 		}
-		bf := BaseForms[rng.Intn(7)] // trailing-slash forms only in the fixed part
+		bf := BaseForms[rng.Intn(8)] // trailing-slash forms only in the fixed part
 		sec := []string{"", "", "", "bearer", "apikey"}[rng.Intn(5)]
 		cors := rng.Intn(4) == 0
 		mk(fmt.Sprintf("router-rand-%04d", i), ts, bf, rng.Intn(2) == 0, rng.Intn(4) == 0, sec, cors, cors && rng.Intn(2) == 0)
 	}
+	return out
+}
+
+// RouterExhaustive enumerates ALL sets of 1..maxSet non-equivalent templates
+// of depth <= 2 over the segment alphabet {a, b, {var}, empty-last} (16
+// templates; 16 + 120 + 560 sets for maxSet = 3), each with GET and a second
+// method on the first template, no base path / "/v1" alternating.
+func RouterExhaustive(maxSet int) []Case {
+	var ts []tmpl
+	first := []string{"a", "b", "{}"}
+	for _, s := range append(append([]string{}, first...), "") {
+		ts = append(ts, tmpl{[]string{s}})
+	}
+	for _, s1 := range first {
+		for _, s2 := range []string{"a", "b", "{}", ""} {
+			ts = append(ts, tmpl{[]string{s1, s2}})
+		}
+	}
+	var out []Case
+	rng := rand.New(rand.NewSource(99))
+	var rec func(start int, cur []tmpl)
+	rec = func(start int, cur []tmpl) {
+		if len(cur) > 0 {
+			bf := BaseForms[0]
+			if len(out)%2 == 1 {
+				bf = BaseForms[1]
+			}
+			d := BuildRouterDoc(rng, cur, bf, false, false, "", false)
+			id := fmt.Sprintf("router-exh/%s/base=%s", routerSetID(cur), bf.ID)
+			out = append(out, Case{ID: id, Family: "router", Spec: d.Root, Flags: Flags{DoNotEdit: true}, Safe: true,
+				Label: map[string]string{"set": routerSetID(cur), "base": bf.ID}})
+		}
+		if len(cur) == maxSet {
+			return
+		}
+		for i := start; i < len(ts); i++ {
+			rec(i+1, append(append([]tmpl{}, cur...), ts[i]))
+		}
+	}
+	rec(0, nil)
 	return out
 }
